@@ -442,6 +442,24 @@ def _judge_builders(ctx, rng, j):
         lk2 = t_.make_adapter_lock_prv(pk, tw, a_hex)
         expect('lock_prv(deprecated):ok', [isa.push(tw_c) + bytes(wit), lk2],
                True)
+        # the lock is for T: an adapter the signer made for ANOTHER point,
+        # presented with that point's own scalar, is not an adapter under T
+        tw2 = functions.clamp_scalar(rbytes(rng, 32))
+        T2b = functions.derive_point_from_scalar(tw2)
+        w2 = bytes(t_.make_adapter_witness(seed, T2b, fields, f_hex))
+        # ... nor is one anybody can compute from an ORDINARY signature
+        # (Rs, s) by the signer over the same fields and a scalar t' of their
+        # own choice: R' = Rs - t'G, sa' = s - t'
+        osig = sigmsg.sign(seed, sigmsg.message(fields, 0))
+        t3 = E.sc(functions.clamp_scalar(rbytes(rng, 32))) % L
+        R3 = E.encode(E.sub(E.decode(osig[:32]), E.mul(t3, E.G)))
+        sa3 = le((E.sc(osig[32:]) - t3) % L)
+        w3 = isa.push(sa3) + isa.push(R3)
+        for nm, lkx in (('lock_pub', lk), ('lock_prv', lk2)):
+            expect(f'{nm}(deprecated):adapter-for-other-T-with-its-scalar',
+                   [isa.push(tw2) + w2, lkx], False)
+            expect(f'{nm}(deprecated):forged-from-plain-signature',
+                   [isa.push(le(t3)) + w3, lkx], False)
 
 
 def run_shard(spec, ctx):
